@@ -296,42 +296,46 @@ func c16Facts(c *StructCase) (sharedNameOneSided bool, twoLevels bool, overrideO
 	return
 }
 
-func TestC16(t *testing.T) {
-	rapid.Check(t, func(t *rapid.T) {
-		c := genC16Case(t)
-		if c.Entry == "VStruct" && rapid.IntRange(0, 3).Draw(t, "twice") == 2 {
-			// every rule set is registered twice for its target (decoy first), and a decoy set is handed over
-			// with two type tokens, which registers nothing
-			c.Twice = true
-			ev.Class("decoy registrations (replaced set, multi-token call)")
-		}
-		msg, res, skipped := checkC16(c)
-		if skipped != "" {
-			ev.Excluded(skipped)
-			return
-		}
-		shared, two, ov := c16Facts(c)
-		if shared {
-			ev.Class("shared-field-name-ruled-in-one-type-only")
-		}
-		if two {
-			ev.Class("rule-name-defined-at-two-levels")
-		}
-		if ov {
-			ev.Class("unscoped-set-over-tag-rules")
-		}
-		if c.Unscoped != nil {
-			ev.Class("has-unscoped-set")
-		}
-		ev.Class(fmt.Sprintf("pertype-sets=%d", len(c.PerType)))
-		ev.Class("entry=" + c.Entry)
-		ev.Class(fmt.Sprintf("violations=%s", bucket(res.Violations)))
-		ev.Case(c02Key(c), (shared || two || ov) && res.Violations > 0, func() interface{} { return c })
-		if msg != "" {
-			ev.Fail(t, "C16", "resolution", c, "%s", msg)
-		}
-	})
+// propC16 is the property; TestC16 drives it with rapid's random generator, FuzzC16Rapid with the coverage-guided
+// native fuzzer (thorough tier: rapid.MakeFuzz turns the fuzzer's bytes into the draws).
+func propC16(t *rapid.T) {
+	c := genC16Case(t)
+	if c.Entry == "VStruct" && rapid.IntRange(0, 3).Draw(t, "twice") == 2 {
+		// every rule set is registered twice for its target (decoy first), and a decoy set is handed over
+		// with two type tokens, which registers nothing
+		c.Twice = true
+		ev.Class("decoy registrations (replaced set, multi-token call)")
+	}
+	msg, res, skipped := checkC16(c)
+	if skipped != "" {
+		ev.Excluded(skipped)
+		return
+	}
+	shared, two, ov := c16Facts(c)
+	if shared {
+		ev.Class("shared-field-name-ruled-in-one-type-only")
+	}
+	if two {
+		ev.Class("rule-name-defined-at-two-levels")
+	}
+	if ov {
+		ev.Class("unscoped-set-over-tag-rules")
+	}
+	if c.Unscoped != nil {
+		ev.Class("has-unscoped-set")
+	}
+	ev.Class(fmt.Sprintf("pertype-sets=%d", len(c.PerType)))
+	ev.Class("entry=" + c.Entry)
+	ev.Class(fmt.Sprintf("violations=%s", bucket(res.Violations)))
+	ev.Case(c02Key(c), (shared || two || ov) && res.Violations > 0, func() interface{} { return c })
+	if msg != "" {
+		ev.Fail(t, "C16", "resolution", c, "%s", msg)
+	}
 }
+
+func TestC16(t *testing.T) { rapid.Check(t, propC16) }
+
+func FuzzC16Rapid(f *testing.F) { f.Fuzz(rapid.MakeFuzz(propC16)) }
 
 func TestC16Replay(t *testing.T) {
 	replayStructCases(t, "C16", func(c *StructCase) string {
